@@ -345,6 +345,11 @@ class UserFcn:
         return self.fcn(*args, **kwds)
 
     def __reduce__(self):
+        if self is getattr(getattr(histogrammar, "defs", None), "identity", None):
+            # the default transform of Count is recognised by identity (``transform is identity`` selects the fast
+            # paths of fill.numpy): a copy or pickle clone must keep referring to that one object
+            return (deserializeIdentity, ())
+
         if isinstance(self.expr, basestring) or self.expr is None:
             return (deserializeString, (self.__class__, self.expr, self.name))
 
@@ -447,6 +452,13 @@ class CachedFcn(UserFcn):
 
     def __repr__(self):
         return f"CachedFcn({self.expr}, {self.name})"
+
+
+def deserializeIdentity():
+    """Used by Pickle to reconstruct a reference to histogrammar.defs.identity."""
+    import histogrammar.defs
+
+    return histogrammar.defs.identity
 
 
 def deserializeString(cls, expr, name):
